@@ -131,33 +131,35 @@ theorem createCore_pres (w : World) (n h : Nat) (k : Key) (r : Req) (hw : WF w) 
       simp only
       split
       · exact (PresS.refl hw).pres
-      · have hl' := labelUsed_false_iff.1 hl
-        have hnone := findL_none hf
-        -- no state of the service, hence no reference
-        have hs0 : stateCountL w.states n k = 0 := by
-          apply stateCountL_zero_iff.2
-          intro st hst e
-          rcases hw.svc.stSvc st hst with ⟨svc0, hs0, e0, -⟩
-          exact hnone svc0 hs0 (e0.trans e.2)
-        have h0 : refCountL w.refs n k = 0 := by rw [hw.ref.cnt]; exact hs0
-        refine ⟨⟨hw.svc.create hf n h r, hw.ref.add_new h0 _ rfl rfl, hw.st.add n k w.nextUid (mkSettings k.p r) hl'⟩, ?_⟩
-        intro k' s s' h1 h2
-        have hk' : k ≠ k' := by
-          intro e
-          rw [← e] at h1
-          rw [show findL w.svcs k = none from hf] at h1
-          cases h1
-        have h2' : findL w.svcs k' = some s' := by
-          have : findL ({ key := k, uid := w.nextUid, cfg := mkSettings k.p r, regs := [n], creq := r } :: w.svcs) k' = some s' := h2
-          unfold findL at this
-          rw [List.find?_cons] at this
-          have hb : ((({ key := k, uid := w.nextUid, cfg := mkSettings k.p r, regs := [n], creq := r } : Svc).key) == k') = false := by
-            simp [hk']
-          rw [hb] at this
-          exact this
-        rw [h1] at h2'
-        cases h2'
-        exact ⟨rfl, rfl, rfl⟩
+      · split
+        · exact (PresS.refl hw).pres
+        · have hl' := labelUsed_false_iff.1 hl
+          have hnone := findL_none hf
+          -- no state of the service, hence no reference
+          have hs0 : stateCountL w.states n k = 0 := by
+            apply stateCountL_zero_iff.2
+            intro st hst e
+            rcases hw.svc.stSvc st hst with ⟨svc0, hs0, e0, -⟩
+            exact hnone svc0 hs0 (e0.trans e.2)
+          have h0 : refCountL w.refs n k = 0 := by rw [hw.ref.cnt]; exact hs0
+          refine ⟨⟨hw.svc.create hf n h r, hw.ref.add_new h0 _ rfl rfl, hw.st.add n k w.nextUid (mkSettings k.p r) hl'⟩, ?_⟩
+          intro k' s s' h1 h2
+          have hk' : k ≠ k' := by
+            intro e
+            rw [← e] at h1
+            rw [show findL w.svcs k = none from hf] at h1
+            cases h1
+          have h2' : findL w.svcs k' = some s' := by
+            have : findL ({ key := k, uid := w.nextUid, cfg := mkSettings k.p r, regs := [n], creq := r } :: w.svcs) k' = some s' := h2
+            unfold findL at this
+            rw [List.find?_cons] at this
+            have hb : ((({ key := k, uid := w.nextUid, cfg := mkSettings k.p r, regs := [n], creq := r } : Svc).key) == k') = false := by
+              simp [hk']
+            rw [hb] at this
+            exact this
+          rw [h1] at h2'
+          cases h2'
+          exact ⟨rfl, rfl, rfl⟩
 
 theorem wrapErr_world_eq (c : Nat) (x : World × Out) : (wrapErr c x).1 = x.1 := by
   unfold wrapErr
